@@ -53,6 +53,13 @@ func (c c19Case) arg(i int) []byte {
 		return nil
 	}
 	n := len(c.Args[i])
+	if (n+c.N+i)%3 == 0 {
+		// ... and every third argument has NO spare capacity: a callee that
+		// re-slices beyond len() (b[:32] of a 31-byte slice is legal Go while the
+		// capacity lasts) reads the caller's bytes silently when there is spare
+		// capacity and panics when there is none; both situations are generated
+		return append(make([]byte, 0, n), c.Args[i]...)
+	}
 	b := make([]byte, n+c19Canary)
 	copy(b, c.Args[i])
 	for j := n; j < len(b); j++ {
